@@ -4,13 +4,13 @@ Usage: /venv/bin/python tools/seed_lines.py <seed-dir-name> [property]"""
 import json, os, shutil, subprocess, sys, tempfile
 VERIF = os.path.dirname(os.path.dirname(os.path.abspath(__file__)))
 sys.path.insert(0, VERIF)
-from sa.selftest import make_tree, seed_edits  # noqa: E402
+from sa.selftest import make_tree, seed_edits, seed_patch  # noqa: E402
 sid = sys.argv[1]
 sd = os.path.join(VERIF, "seeded", sid)
 pid = sys.argv[2] if len(sys.argv) > 2 else json.load(open(os.path.join(sd, "meta.json")))["property"]
 tmp = tempfile.mkdtemp(prefix="seedlines_")
 try:
-    make_tree(os.path.join(tmp, "repo"), seed_edits(os.path.join(sd, "patch.diff")))
+    make_tree(os.path.join(tmp, "repo"), seed_edits(seed_patch(sd)))
     env = dict(os.environ, VERIF_REPO=os.path.join(tmp, "repo"), VERIF_EVIDENCE_DIR=os.path.join(tmp, "ev"))
     p = subprocess.run([sys.executable, "-m", "sa.check", pid], cwd=VERIF, env=env, capture_output=True, text=True)
     for l in p.stdout.splitlines():
